@@ -942,6 +942,8 @@ def case_enumtable(case):
 
 
 def run_case(case):
+    if case["kind"] == "connect-scan":
+        return case_scan_on_connect(case)
     if case["kind"] == "interleaved":
         return case_interleaved(case)
     if case["kind"] == "enumtable":
@@ -1588,6 +1590,14 @@ def _shard(arg):
             run({"kind": "queryfilter", "enum": "gen", "bits": bits, "unit": f, "via_module": False, "dev": f % 64, "inst": 4,
                  "as_int": bool(f & 1), "fault": None})
         res.sample({"kind": "queryfilter", "enum": "gen", "bits": bits, "unit": 0x123456 & top}, cls="query filter (%d-bit)" % w)
+    elif kind == "connect-scan":
+        case = {"kind": "connect-scan", "driver": arg[1]}
+        res.count()
+        res.nontrivial()
+        res.label("connect-scan:" + arg[1])
+        for sig, msg in case_scan_on_connect(case):
+            res.violation(sig, case, msg)
+        res.sample(case, cls="scan on connect")
     elif kind == "scheme":
         for initial in range(5):
             for s in range(5):
@@ -1682,9 +1692,48 @@ def _shard(arg):
     return res
 
 
+def case_scan_on_connect(case):
+    """The serial drivers' connect(scan_dev_inst=True) runs the discovery scan itself: every short address 0..63 is
+    asked for its status, inside the quiescent-mode bracket.  case: {"kind": "connect-scan", "driver": "luba"|"sci"}"""
+    from harness.gateways_serial import SerialSim
+    from dali import command as _cmd, frame as _fr
+    drv = case["driver"]
+    sim = SerialSim(drv)
+    out = []
+    try:
+        task = sim.loop.create_task(sim.driver.connect(scan_dev_inst=True))
+        sim.tasks.append(task)
+        sim.drain(max_rounds=20000, max_virtual=600.0)
+        if not task.done():
+            return [("C13:connect-scan-hangs:" + drv, "connect(scan_dev_inst=True) still running after 600 s of virtual time")]
+        if task.exception() is not None:
+            e = task.exception()
+            return [("C13:connect-scan-raised:%s:%s" % (drv, type(e).__name__), "%r (in %s)" % (e, library_frame(e.__traceback__)))]
+        names = []
+        for w in sim.gw.wire:
+            if w.get("kind") != "send":
+                continue
+            c = _cmd.from_frame(_fr.ForwardFrame(w["bits"], w["value"]))
+            names.append((type(c).__name__, getattr(getattr(c, "destination", None), "address", None)))
+        asked = [a for (n, a) in names if n == "QueryDeviceStatus"]
+        if sorted(set(asked)) != list(range(64)):
+            missing = sorted(set(range(64)) - set(asked))
+            out.append(("C13:connect-scan-addresses:" + drv, "the scan run by connect(scan_dev_inst=True) asked %d addresses; "
+                        "never asked: %r" % (len(set(asked)), missing)))
+        kinds = [n for (n, a) in names]
+        if "StartQuiescentMode" not in kinds or "StopQuiescentMode" not in kinds or \
+                kinds.index("StartQuiescentMode") > kinds.index("QueryDeviceStatus") if "QueryDeviceStatus" in kinds else False:
+            out.append(("C13:discover-quiescent-bracket:connect-scan", "frames sent by connect(scan_dev_inst=True): %r" % (kinds[:6],)))
+    finally:
+        sim.close()
+    return out
+
+
 def run(ctx):
     q, s = ctx.quick, ctx.seed
     shards = []
+    shards.append(("connect-scan", "luba"))
+    shards.append(("connect-scan", "sci"))
     complete = 12 if q else 16
     fillers_q = ["repeat", [0, 0xFF, 0xA5][s % 3], [0xFF, 0xA5, 0][s % 3]]
     for r in range(1, complete + 1):
